@@ -351,3 +351,84 @@ func ZZ_C12_Ref(op2, agg, nargs2 int) {
 	zzvrf.Assert(zzvrf.Implies(emitted, inList), "pushdown-keeps-accepted-log")
 	zzvrf.Reach("end")
 }
+
+// ZZ_C12_Rows: one log yields several rows (a selected bytes32[] input with
+// alen symbolic elements, reference ABI encoding); the array input carries a
+// filter (op1), log_addr optionally another (op2 with one argument when
+// withAddr == 1), aggregation agg. Each element's row is emitted iff the fold
+// of THAT row's filter results accepts: verdicts must not leak between rows.
+func ZZ_C12_Rows(op1, op2, agg, alen, withAddr int) {
+	argA := make([]byte, 32)
+	for i := range argA {
+		argA[i] = byte(0xa0 + i)
+	}
+	in := Input{Name: "a", Type: "bytes32[]", Column: "c_a"}
+	in.Filter = Filter{Op: zzOps[op1], Arg: []string{eth.EncodeHex(argA)}}
+	ev := Event{Name: "Ev", Inputs: []Input{in}}
+	bds := []BlockData{{Name: "abi_idx", Column: "abi_idx"}}
+	argB := make([]byte, 20)
+	for j := range argB {
+		argB[j] = byte(0x10 + j)
+	}
+	if withAddr == 1 {
+		bd := BlockData{Name: "log_addr", Column: "log_addr"}
+		bd.Filter = Filter{Op: zzOps[op2], Arg: []string{eth.EncodeHex(argB)}}
+		bds = append(bds, bd)
+	}
+	tbl := wpgTable("t", "c_a", "abi_idx", "log_addr")
+	ig, err := New("ig1", ev, bds, tbl, Notification{}, zzAggs[agg])
+	zzvrf.Assert(err == nil, "new-ok")
+	if err != nil {
+		return
+	}
+	t := zzParse(in)
+	val := zzGen(t, alen, 0)
+	data := zzEncSeq([]zzTy{t}, []zzVal{val})
+	lg := zzMakeLog(1, data)
+	copy(lg.lwc.l.Topics[0], ig.sighash)
+	var rows [][]any
+	var perr error
+	panicked := false
+	func() {
+		defer func() {
+			if r := recover(); r != nil {
+				panicked = true
+			}
+		}()
+		rows, perr = ig.processLog(nil, lg.lwc, &sync.Mutex{}, nil)
+	}()
+	zzvrf.Assert(!panicked && perr == nil, "no-panic-no-error")
+	if panicked || perr != nil {
+		return
+	}
+	r2 := true
+	if withAddr == 1 {
+		r2 = zzBytesRef(zzOps[op2], lg.lwc.l.Address, [][]byte{argB})
+	}
+	isAnd := zzAggs[agg] == "and" || zzAggs[agg] == "AND"
+	seen := make([]int, alen)
+	for _, row := range rows {
+		ai, ok := row[1].(int)
+		zzvrf.Assert(ok && ai >= 0 && ai < alen, "abi_idx-in-range")
+		if !ok || ai < 0 || ai >= alen {
+			return
+		}
+		seen[ai]++
+		got, ok := row[0].([]byte)
+		zzvrf.Assert(ok && zzvrf.BytesEq(got, val.elems[ai].word), "row-carries-its-element")
+	}
+	for i := 0; i < alen; i++ {
+		r1 := zzBytesRef(zzOps[op1], val.elems[i].word, [][]byte{argA})
+		want := r1
+		if withAddr == 1 {
+			if isAnd {
+				want = zzvrf.And(r1, r2)
+			} else {
+				want = zzvrf.Or(r1, r2)
+			}
+		}
+		zzvrf.Assert(seen[i] <= 1, "element-emitted-at-most-once")
+		zzvrf.Assert((seen[i] == 1) == want, "row-emitted-iff-its-own-filters-accept")
+	}
+	zzvrf.Reach("end")
+}
